@@ -14,6 +14,7 @@ structure ExpLaws (α : Type) [Field α] [LinearOrder α] [HasExp α] : Prop whe
   exp_zero : exp (0 : α) = 1
   exp_pos : ∀ a : α, 0 < exp a
   exp_mono : ∀ a b : α, a ≤ b → exp a ≤ exp b
+  exp_lt : ∀ a b : α, a < b → exp a < exp b
 
 /-- laws of `sqrt` used by the theorems -/
 structure SqrtLaws (α : Type) [Field α] [LinearOrder α] [HasSqrt α] : Prop where
@@ -48,7 +49,8 @@ noncomputable instance : HasCos ℝ := ⟨Real.cos⟩
 noncomputable instance : HasRpow ℝ := ⟨fun a b => a ^ b⟩
 
 theorem expLaws : ExpLaws ℝ :=
-  ⟨Real.exp_add, Real.exp_zero, Real.exp_pos, fun _ _ h => Real.exp_le_exp.mpr h⟩
+  ⟨Real.exp_add, Real.exp_zero, Real.exp_pos, fun _ _ h => Real.exp_le_exp.mpr h,
+   fun _ _ h => Real.exp_lt_exp.mpr h⟩
 theorem sqrtLaws : SqrtLaws ℝ := ⟨Real.sqrt_nonneg, fun _ h => Real.mul_self_sqrt h⟩
 theorem logLaws : LogLaws ℝ :=
   ⟨fun _ h => Real.exp_log h, fun _ h => Real.log_pos h, fun _ h => Real.log_nonneg h⟩
